@@ -15,6 +15,7 @@ import flow
 import gen
 import mockca
 import vlib
+from ext import c10argv
 
 FINISH = dict(
     level="proof",
@@ -50,7 +51,12 @@ FINISH = dict(
          "{% for %}), empty environment values, IP / wildcard+base identifiers through the real constructors, hook "
          "inputs and outputs defined in the configuration FILE (every member of every resolved hook; stdin+stdin_str "
          "refused), flows started from a key-only / certificate-only / due pair with and without kp_reuse, two "
-         "certificates with different hooks, accounts and tables in one daemon. non-trivial = at least one hook of the event's type is attached / the configuration "
+         "certificates with different hooks, accounts and tables in one daemon. py/ext/c10argv.py: every recorder hook also "
+         "declares positional elements that render to the EMPTY string for most events (a bare `{{ var }}` for every variable "
+         "— empty for the variables of the other types, acmed.toml(5): \"the variable is empty\" —, an unset `{{ env.KEY }}`, "
+         "a literal \"\", an `{% if %}` that is false) and the recorded argv is judged AS A VECTOR by Spec.C10Args.holds (op "
+         "c10_argv): one argument per declared element, in order, each the rendering of its element (hooks::call, "
+         "call_challenge_hooks, call_post_operation_hooks, write_file and the daemon's flows). non-trivial = at least one hook of the event's type is attached / the configuration "
          "is accepted / the flow reached the first hook.",
 )
 
@@ -71,7 +77,9 @@ SCALAR_VARS = ["identifier", "identifier_tls_alpn", "challenge", "file_name", "p
                "is_clean_hook", "is_success", "status", "certificate_path", "private_key_path", "key_type",
                "file_directory", "file_path"]
 VAR_ARGS = (["%s={{ %s }}" % (v, v) for v in SCALAR_VARS] + ["identifiers={{ identifiers | join(',') }}"]
-            + ["env.%s={{ env.%s }}" % (k, k) for k in KEYS])
+            + ["env.%s={{ env.%s }}" % (k, k) for k in KEYS]
+            # positional elements, most of them EMPTY for any given event (py/ext/c10argv.py): the argv is judged as a vector
+            + c10argv.POSITIONAL)
 ROOT = "@ROOT@"
 PY = sys.executable
 VALUES = ["example.org", "a b", "", "x'y\"z", "é京", "-", "tok_-AZ09", "{{ proof }}", "line1\nline2",
@@ -346,8 +354,9 @@ def expected_vars(case, ty):
     return {"file_path": p, "file_directory": os.path.dirname(p), "file_name": os.path.basename(p)}
 
 
-def check_record_vars(ctx, rec, ty, exp_vars, exp_env, doc, what, replay_obj):
-    """Documented variables of `ty` as rendered into the recorder's argv."""
+def check_record_vars(ctx, rec, ty, exp_vars, exp_env, doc, what, replay_obj, declared=None):
+    """Documented variables of `ty` as rendered into the recorder's argv; with `declared` (the hook's `args` as
+    configured): the argv as a VECTOR, one argument per declared element, in order (Spec.C10Args.holds)."""
     args = flow.hook_args(rec)
     for v in doc[ty]:
         if v == "env":
@@ -360,6 +369,8 @@ def check_record_vars(ctx, rec, ty, exp_vars, exp_env, doc, what, replay_obj):
             ctx.violation("%s: hook %s (%s): template variable %s rendered %r, expected %r" % (
                 what, rec["name"], ty, v, args.get(v), exp_vars[v]), replay_obj)
             return False
+    if declared is not None:
+        return c10argv.judge(ctx, model, rec, ty, declared, doc[ty], exp_vars, exp_env, what, replay_obj)
     return True
 
 
@@ -524,7 +535,7 @@ def judge_call_case(ctx, case, res, proc, doc):
         ev = expected_vars(case, t)
         for r in recs:
             h = by_name[r["name"]]
-            if not check_record_vars(ctx, r, t, ev, exp_env, doc, "hooks::call", replay_obj):
+            if not check_record_vars(ctx, r, t, ev, exp_env, doc, "hooks::call", replay_obj, declared=h["args"]):
                 return
             if "stdin_str" in h and h["_beh"][0] != "stdin":
                 want = "S<%s|%s|%s|%s>" % (ev.get("identifier", ""), ev.get("status", ""), ev.get("file_name", ""),
@@ -1238,6 +1249,9 @@ def run_flow_phase(ctx, spec, root, helper, ca, phase, doc, replay_obj):
             tokens[(a["orig"], c["type"])] = c["token"]
     success = not aborted and spec["kind"] not in ("pre-abort", "post-abort")
     jenv, jmeta = [], []
+    cfg_args = {}
+    for h in cfg["hook"]:
+        cfg_args.setdefault(h["name"], h.get("args"))
     for _, e in events:
         _, ty, key, owner, recs = e
         if ty.startswith("challenge"):
@@ -1267,7 +1281,7 @@ def run_flow_phase(ctx, spec, root, helper, ca, phase, doc, replay_obj):
                            "owner": pairs(oenv), "ident": pairs(ienv), "keys": KEYS}])[0]
         exp_env = {k: v for k, v in exp["expected"]}
         for r in recs:
-            if not check_record_vars(ctx, r, ty, ev, exp_env, doc, what, replay_obj):
+            if not check_record_vars(ctx, r, ty, ev, exp_env, doc, what, replay_obj, declared=cfg_args.get(r["name"])):
                 return False
             a = flow.hook_args(r)
             if ty.startswith("challenge") and (not a.get("proof") or (chal == "http-01" and not a["proof"].startswith(tok + "."))
